@@ -8,7 +8,8 @@ PROPERTY = 'C12'
 LEVEL = 'exploration'
 SHARDS = {'quick': 4, 'thorough': 16}
 RULE = (
-    'G-intervals series (2-9 samples; rising, falling, non-monotone, flat pairs; samples exactly on a level as a '
+    'G-intervals series (2-9 samples; rising, falling, non-monotone, flat pairs; gentle drifts of 1e-9..0.3 levels per sample '
+    'around datums up to 1e6 levels; samples exactly on a level as a '
     'local extremum and in passing, one ulp beside a level; abscissae starting at 0, 7.3 and 1.7e9 with regular and '
     'irregular spacing; steps 1, .5, 2, .1, .2, .3, 2.5, 5 and random) handed to the real regrid.regrid; every item '
     'yielded is aligned (sequence alignment, tie-ambiguous levels optional) with the integers k such that k*step '
@@ -33,6 +34,8 @@ REQUIRED = {
         'series-with-flat-pair': 200,
         'series-with-epoch-abscissae': 500,
         'series-nonmonotone': 500,
+        'series-gentle-around-a-distant-datum': 500,
+        'second-passes-compared': 200,
         'pairs-falling': 1000,
         'head-mappings-checked': 100,
         'empty-series': 1,
@@ -63,8 +66,26 @@ def gen_series(rng):
             incs.append(rng.choice([rng.uniform(0.01, 1000), 1800.0, 1200.0, 1 / 3]))
     x = np.cumsum([x0] + incs)
     step = rng.choice(STEPS + [rng.uniform(0.05, 7)])
-    shape = rng.choice(['random', 'rising', 'falling', 'random', 'zigzag'])
+    shape = rng.choice(['random', 'rising', 'falling', 'random', 'zigzag', 'gentle', 'gentle'])
     flags = set()
+    if shape == 'gentle':
+        # ordinates that are large compared with the per-sample change: a level
+        # referred to a distant datum with a slow recession / creep
+        flags.add('gentle')
+        datum = rng.choice([0.0, 1e3, 1.25e5, -3e4, 1e6]) * rng.choice([1.0, step])
+        y = [datum + rng.uniform(-2, 2) * step]
+        drift = rng.choice([-1, 1, -1]) * rng.choice([0.3, 0.05, 0.011, 1e-3, 1e-6, 1e-9])
+        for _ in range(m - 1):
+            r = rng.random()
+            if r < 0.15:
+                k = round(y[-1] / step)
+                y.append(k * step)
+                flags.add('on-level')
+            elif r < 0.25:
+                y.append(float(np.nextafter(y[-1], y[-1] + drift)))
+            else:
+                y.append(y[-1] + drift * step * rng.uniform(0.5, 1.5))
+        return x, np.array(y, dtype=float), step, flags
 
     def val(prev):
         r = rng.random()
@@ -119,8 +140,9 @@ def check_regrid_case(ctx, x, y, step, flags=(), source='generated'):
     rec = ctx.rec
     rec.case()
     case = {'kind': 'regrid', 'x': [float(v) for v in x], 'y': [float(v) for v in y], 'step': float(step)}
+    xa, ya = np.array(x, dtype=float), np.array(y, dtype=float)
     try:
-        out = list(rg.regrid(np.asarray(x, dtype=float), np.asarray(y, dtype=float), step))
+        out = list(rg.regrid(xa, ya, step))
     except Exception as exc:  # pylint: disable=broad-except
         desc = core.describe_exception(exc)
         if desc['origin'] == 'harness':
@@ -129,12 +151,22 @@ def check_regrid_case(ctx, x, y, step, flags=(), source='generated'):
         rec.violation('regrid-raises:' + desc['type'], {'exception': desc}, case, 'regrid')
         return
     rec.hit('regrid-calls')
+    if not (np.array_equal(xa, np.array(x, dtype=float)) and np.array_equal(ya, np.array(y, dtype=float))):
+        rec.violation('the-sampled-series-handed-in-is-modified', {'y_before': case['y'][:6], 'y_after': ya.tolist()[:6], 'step': float(step)}, case, 'regrid')
+        return out
+    # a second pass over the same arrays (another command, another grid) must see the same record
+    if len(xa) and rec.evaluations % 7 == 0:
+        again = list(rg.regrid(xa, ya, step))
+        if [(int(k), float(v)) for k, v in again] != [(int(k), float(v)) for k, v in out]:
+            rec.violation('second-pass-over-the-same-series-reports-other-crossings', {'first': [(int(k), float(v)) for k, v in out[:6]], 'second': [(int(k), float(v)) for k, v in again[:6]]}, case, 'regrid')
+            return out
+        rec.hit('second-passes-compared')
     errs, info = oracle_regrid.check([float(v) for v in x], [float(v) for v in y], float(step), out)
     rec.hit('crossings-must', info['must'])
     rec.hit('crossings-tie-ambiguous', info['maybe'])
     rec.hit('crossings-reported', len(out))
     cls = classify_series(x, y, step, flags)
-    for name, label in (('on-level', 'series-with-sample-on-level'), ('ulp', 'series-with-one-ulp-beside-level'),
+    for name, label in (('gentle', 'series-gentle-around-a-distant-datum'), ('on-level', 'series-with-sample-on-level'), ('ulp', 'series-with-one-ulp-beside-level'),
                         ('flat', 'series-with-flat-pair'), ('epoch', 'series-with-epoch-abscissae'),
                         ('nonmonotone', 'series-nonmonotone')):
         if name in cls:
@@ -166,6 +198,10 @@ def check_head_mapping_case(ctx, rng):
     case = {'kind': 'head_mapping', 'series': [[list(map(float, x)), list(map(float, y))] for x, y in series], 'step': step}
     try:
         hm = fo.build_head_mapping(series, step)
+        hm_again = fo.build_head_mapping(series, step)
+        if sorted((k, sorted(v)) for k, v in hm.items()) != sorted((k, sorted(v)) for k, v in hm_again.items()):
+            rec.violation('second-pass-over-the-same-series-reports-other-crossings', {'first': str(sorted(hm.items()))[:400], 'second': str(sorted(hm_again.items()))[:400]}, case, 'head_mapping')
+            return
     except Exception as exc:  # pylint: disable=broad-except
         desc = core.describe_exception(exc)
         if desc['origin'] == 'harness':
